@@ -77,6 +77,17 @@ theorem C16_render_no_filename (e : Err) (hwf : e.WF = true) (pre : Str)
     rcases hf with h | h <;> simp [withFile, h]
   simp [this]
 
+/-- instances with and without a file name (the hypotheses of the two theorems above) -/
+theorem C16_render_filename_nonvacuous :
+    (Err.auxData "m".toList (some "x.aux".toList) (some 3) (some "\\foo".toList)).WF = true ∧
+    (Err.auxData "m".toList (some "x.aux".toList) (some 3) (some "\\foo".toList)).getFilename = some "x.aux".toList ∧
+    formatErrorLines (Err.auxData "m".toList (some "x.aux".toList) (some 3) (some "\\foo".toList)) warningPrefix
+      = .ok ["x.aux: \\foo".toList, "x.aux: ^^^^".toList, "x.aux: WARNING: in line 3: m".toList] ∧
+    (Err.duplicateField "k".toList "title".toList).getFilename = none ∧
+    formatErrorLines (Err.duplicateField "k".toList "title".toList) errorPrefix
+      = .ok ["ERROR: entry with key k has a duplicate title field".toList] := by
+  decide +kernel
+
 /-- every error value belongs to one of the classes the model lists (the list the harness
 compares with the classes enumerated from the source) -/
 theorem C16_every_class_listed (e : Err) : e.className ∈ classNames := by
@@ -255,18 +266,21 @@ theorem C16_direct_body (body rest : List (Op E)) (hb : balanced body = true) (c
   rw [Spec.directBody, baseReports_append body _ 0 0 hd]
   rcases hc with rfl | rfl <;> simp [baseReports]
 
-/-- well-bracketed histories as a grammar -/
-inductive WellBracketed : List (Op E) → Prop where
-  | nil : WellBracketed []
-  | report (e : E) : WellBracketed [.report e]
-  | setStrict (b : Bool) : WellBracketed [.setStrict b]
-  | context (body : List (Op E)) : WellBracketed body → WellBracketed (.enter :: body ++ [.exit])
-  | aborted (body : List (Op E)) : WellBracketed body → WellBracketed (.enter :: body ++ [.abort])
-  | append (a b : List (Op E)) : WellBracketed a → WellBracketed b → WellBracketed (a ++ b)
+/-- nesting on a concrete history: inside an outer context an inner one is aborted; the outer
+context has its direct reports, goes on collecting, and yields them all when left -/
+theorem C16_capture_nested_nonvacuous :
+    balanced ([.enter, .report 2, .abort, .report 3] : List (Op Nat)) = true ∧
+    (run { st := { strict := true, errorCode := 0, captured := some [1] }, saved := [none] }
+        ([.enter, .report 2, .abort, .report 3] ++ [.report 4] : List (Op Nat))).1
+      = { st := { strict := true, errorCode := 0, captured := some [1, 3, 4] }, saved := [none] } ∧
+    (run Config.init ([.enter, .report 1, .enter, .report 2, .exit, .report 3] ++ [.abort] : List (Op Nat))).2.getLast?
+      = some (.left (some [1, 3])) ∧
+    Spec.directBody ([.report 1, .enter, .report 2, .exit, .report 3] ++ .abort :: [.report 9] : List (Op Nat)) = [1, 3] := by
+  decide
 
 /-- every history of the grammar satisfies the decidable hypothesis of `C16_capture_restores`
 (proved by induction over well-bracketed histories) -/
-theorem C16_wellBracketed_balanced (ops : List (Op E)) (h : WellBracketed ops) : balanced ops = true := by
+theorem C16_wellBracketed_balanced (ops : List (Op E)) (h : Spec.WellBracketed ops) : balanced ops = true := by
   have key : ∀ d, depthAfter d ops = some d := by
     induction h with
     | nil => intro d; rfl
@@ -287,6 +301,16 @@ theorem C16_wellBracketed_balanced (ops : List (Op E)) (h : WellBracketed ops) :
       rw [depthAfter_append a b d d (iha d)]
       exact ihb d
   simp [balanced, key 0]
+
+theorem C16_wellBracketed_balanced_nonvacuous :
+    Spec.WellBracketed ([.report 1] ++ (.enter :: ([.report 2] ++ (.enter :: [] ++ [.abort])) ++ [.exit]) : List (Op Nat)) :=
+  .append _ _ (.report 1) (.context _ (.append _ _ (.report 2) (.aborted _ .nil)))
+
+/-- the decidable hypothesis and the grammar describe the same histories -/
+theorem C16_balanced_iff_wellBracketed (ops : List (Op E)) :
+    balanced ops = true ↔ Spec.WellBracketed ops :=
+  ⟨fun h => balanced_wellBracketed ops.length ops (Nat.le_refl _) (by simpa [balanced] using h),
+   C16_wellBracketed_balanced ops⟩
 
 /-- Refinement to the reference semantics.  Started outside any capture context, in every
 history that never leaves a context it did not enter (contexts may still be open at the end),
